@@ -107,6 +107,15 @@ JudgeFsEq(e) ==
      ELSE IF e.fmt # FlattenSeq([k \in 1..Len(e.a) |-> IF k = 1 THEN RowStr(e.a[k]) ELSE <<10>> \o RowStr(e.a[k])]) THEN V("FsEq.SimpleFormat", FALSE)
      ELSE V("ok", TRUE)
 
+(* ------------------------------------------------------------------ dumb *)
+\* FSArray.dumb_display(): prints each row's terminal string followed by a newline, top to bottom, whatever the declared
+\* width of the array and whatever the terminal; returns nothing.  e.a = the rows as the array holds them, e.out = stdout
+JudgeDumb(e) ==
+  IF e.res.k # "ok" THEN V("Dumb.Raised", FALSE)
+  ELSE IF e.res.t # "" THEN V("Dumb.ReturnsNothing", FALSE)
+  ELSE IF e.out # FlattenSeq([k \in 1..Len(e.a) |-> RowStr(e.a[k]) \o <<10>>]) THEN V("Dumb.OneLinePerRow", FALSE)
+  ELSE V("ok", TRUE)
+
 (* ------------------------------------------------------------- normslice *)
 \* formatstring.normalize_slice(length, index), as coded: an int index wraps once and must land inside; a slice gets its
 \* Nones filled in and its negative bounds wrapped and clamped at 0 - nothing is clamped at the top - and a step, of
@@ -149,5 +158,6 @@ JudgeExtra(e) ==
     [] e.op = "fsdiff" -> JudgeFsDiff(e)
     [] e.op = "ppevent" -> JudgePpEvent(e)
     [] e.op = "fseq" -> JudgeFsEq(e)
+    [] e.op = "dumb" -> JudgeDumb(e)
     [] OTHER -> <<"fail", "UnknownOp", "drift">>
 =============================================================================
